@@ -1003,6 +1003,18 @@ impl Exec {
             if crossed && frames.len() >= 2 {
                 self.counters.inc("probe_batch_crosses_k");
             }
+            // a block-level receiver whose next attempt sees >= K + H symbols with a source symbol
+            // missing runs the GF(2)-only attempt first
+            if matches!(r.imp, RxImpl::Blk(..)) && frames.len() >= 2 {
+                for b in 0..k_of.len() {
+                    let pr = crate::rank::params(k_of[b]);
+                    let n = r.sh.have[b].len() as u32;
+                    let src = r.sh.have[b].range(0..k_of[b]).count() as u32;
+                    if frames.iter().any(|f| f.sbn as usize == b) && n >= k_of[b] + pr.h && src < k_of[b] && r.sh.block_first[b].is_none() {
+                        self.counters.inc("probe_gf2_only_attempt_eligible");
+                    }
+                }
+            }
             if was_done {
                 self.counters.inc("redeliver_after_done");
             }
